@@ -113,7 +113,7 @@ fn ws_read_body(l1: usize, l2: usize, bl: usize) {
 // @gv props=C13 tier=quick required=yes fns=WebsocketStreamWrapper::read,MessageCursor::new,MessageCursor::read
 // @gv bounds="two binary messages of 1 and 2 bytes (symbolic content) arriving back to back, read into a 3-byte buffer: both messages are delivered by one read, in order"
 // @gv stubs="tungstenite::WebSocket::read -> two messages then WouldBlock"
-// @gv timeout=900 mem=12
+// @gv timeout=900 mem=6
 #[kani::proof]
 #[kani::unwind(10)]
 #[kani::stub(std::fmt::format, stub_format)]
@@ -123,7 +123,7 @@ fn c13_ws_read_two_messages_one_read() { ws_read_body(1, 2, 3) }
 // @gv props=C13 tier=quick required=yes fns=WebsocketStreamWrapper::read,MessageCursor::new,MessageCursor::read
 // @gv bounds="a 3-byte message read into a 2-byte buffer (first read returns the first two bytes)"
 // @gv stubs="tungstenite::WebSocket::read -> two messages then WouldBlock"
-// @gv timeout=900 mem=12
+// @gv timeout=900 mem=6
 #[kani::proof]
 #[kani::unwind(10)]
 #[kani::stub(std::fmt::format, stub_format)]
